@@ -51,7 +51,8 @@ CHECKS = {
                 'in the Serializing/Stateful/Basic interpreter chain and in the arm of execute_instructions; claims are consumed LIFO iff '
                 'published reversed; axiom schemas agree three-way; phases run in order over one interpreter. Necessary conditions only: '
                 'that a concrete module is accepted is an execution and is not decided. Also: the memoiser\'s slot budget is 256 - len(memory) with one slot per suggestion (one-byte Load operand); generator and checker compute Instantiate / resolved substitutions by the same textbook table (C11\'s Python half and C05\'s Rust half). Whenever the generator\'s freshness judgement says fresh the documented one does too, per constructor (judgement-agreement); the substitution table has ONE column for both languages (capture checks, shadowing, identity on a metavariable declared fresh): two genuine disagreements were repaired (9148c8c, 44ab5e8), the missing set-variable capture check of the generator\'s Mu arms is a known finding.'
-                ' The checker\'s four judgements and well_formed agree with the documented ones arm by arm (shared with C05): a stricter judgement refuses generated modules.',
+                ' The checker\'s four judgements and well_formed agree with the documented ones arm by arm (shared with C05): a stricter judgement refuses generated modules.'
+                ' The wiring rows identify a symbol with the number written for it; the one-symbol-table rules of C03 that justify this are composed in. Helper objects the serializer keeps (`self._encoder.feed(..)`) are read through.',
         'note': 'Trusted: python ast, rustc MIR, spec/axioms.py. Symbols are identified with their serializer numbers (injectivity: C03).',
         'design_ref': 'DESIGN.md section 3, C02',
     },
@@ -63,7 +64,8 @@ CHECKS = {
                 'memory grows at the same events; the Load operand is memory.index of the term handed to the tracker; -len(x) slices are '
                 'guarded. Four genuine deviations of publish_* are recorded as known findings (the pinned suite asserts them). '
                 'Equality of tracked and real state on concrete traces is not observed. publish_proof compares the conclusion with the HEAD of the claim list and drops exactly it (claim-queue); the generator\'s freshness judgement implies the documented one (shared with C02).'
-                ' arity-enforced: operands are never compared with the tracked stack through zip (truncation accepts a short stack). The two substitution tables are composed (the tracker computes Instantiate results with the generator\'s substitution).',
+                ' arity-enforced: operands are never compared with the tracked stack through zip (truncation accepts a short stack). The two substitution tables are composed (the tracker computes Instantiate results with the generator\'s substitution).'
+                " 'Modulo the numbering of symbols' is sound only for ONE injective symbol table for the three streams: C03's one-symbol-table rules are composed in (also when the table lives on a helper object that must not be re-created at a phase change).",
         'note': 'Trusted: python ast, rustc MIR. Known findings in known_findings.json (publish_* leave the term on the tracked stack; claims not queued).',
         'design_ref': 'DESIGN.md section 3, C04',
     },
@@ -116,7 +118,8 @@ CHECKS = {
                 'returns only after dynamic == static conclusion; each ProofExp primitive advertises the term BasicInterpreter computes; '
                 'sibling empty-map guards agree. Joint behaviour on concrete expressions is not observed. Interpreter.pattern interprets the operands of each constructor in the order of the stack slots the tracking interpreters check (walk-order, 8 arms); the tracking interpreters compare terms with ==, never by identity. Every interpreter class that refines a call through super() calls the same method with its own arguments (64 delegations); no interpreter class keeps class-level mutable state mutated through instances.'
                 ' The Instantiate operand pairing and the memoiser\'s slot budget (shared with C02) are part of \'the serialising interpreter means the same\'.'
-                " gamma / claims are fed to every interpreter through the loop shape C03 requires (a flattening generator must yield every axiom once, in order), and the decorator wrapping the pretty interpreter's steps - wherever it is defined - calls the wrapped step with the received arguments and returns its result.",
+                " gamma / claims are fed to every interpreter through the loop shape C03 requires (a flattening generator must yield every axiom once, in order), and the decorator wrapping the pretty interpreter's steps - wherever it is defined - calls the wrapped step with the received arguments and returns its result."
+                ' With the arguments Interpreter.pattern passes, the conclusion-only interpreter rebuilds every field of the pattern walked from the same-named field (walk-order/rebuilds-the-pattern: exchanged positive / negative lists publish another pattern).',
         'note': 'Trusted: python ast; the listed construction sites were confirmed by reading.',
         'design_ref': 'DESIGN.md section 3, C08',
     },
@@ -165,7 +168,8 @@ CHECKS = {
                 'interpreter.pattern(<loop variable>); the declared lists are append-only; optimisers neither override nor alter '
                 'publishing; the serializer has one symbol table (created in __init__, ids len(table) under a not-in guard, never '
                 'shrunk) shared by the three files through one serializer; all 26 writes are unmasked bytes([...]) so ids above 255 '
-                'raise. The emitted files are not decoded and compared. A write through a byte-rendering helper of the repository counts as bounded only if the helper is `bytes(<its parameter>)` (a masking helper is a violation); `table.setdefault(name, len(table))` is read as the lookup-or-assign idiom. The transformer base forwards every pattern-construction call (evar .. instantiate_pattern) to the same method of the wrapped interpreter, once, with the same arguments.',
+                'raise. The emitted files are not decoded and compared. A write through a byte-rendering helper of the repository counts as bounded only if the helper is `bytes(<its parameter>)` (a masking helper is a violation); `table.setdefault(name, len(table))` is read as the lookup-or-assign idiom. The transformer base forwards every pattern-construction call (evar .. instantiate_pattern) to the same method of the wrapped interpreter, once, with the same arguments.'
+                ' What is published is the declared pattern itself: Interpreter.pattern rebuilds every field from the same-named field (shared with C08). The symbol table may live on an object the serializer keeps, which must then be created once per serializer.',
         'note': 'Trusted: python ast; the MAY_PUBLISH table confirmed by reading.',
         'design_ref': 'DESIGN.md section 3, C03',
     },
@@ -190,7 +194,8 @@ CHECKS = {
                 '(database order), never from a set (hash-seed dependent) nor merely sorted. The numeric decoding of all step numbers, '
                 'Z placement and whitespace layouts are not decided. Labels registered from `text.split(sep)` with an explicit separator must filter empty tokens (the empty list `( )` is legal); where numbers past the label list are resolved (translate.exec_proof) every Z saves and remembers the top unconditionally and number n reloads slot n - len(labels) - 1 (shared with C16). A regular expression that cuts the proof into steps must repeat the high-digit class U-Y without bound before one A-T (read with re\'s parser); hash() / id() is never used as the identity of a term outside __hash__.'
                 ' The hypothesis numbering is found in converter helpers and in comprehension form; the number->label table extended with a proof\'s labels is created per proof (label-table-fresh); a decoder written with zip over a place-value table needs a table that reaches 10^6. The digit weights are decided by induction-variable analysis of the decoding loop (constants, pow(5, counter), running products); the set that selects the mandatory hypotheses is <statement>.get_metavariables(), and numbering in the order of another collection of the converter is a violation.'
-                ' The decoded number is exactly ls[last letter] plus the weighted high digits (also when the decoder is written in place in the loop over the letters); the letter buffer is emptied exactly on the iterations that close a number; the listed labels continue at len(table) + 1 and advance by one per label.',
+                ' The decoded number is exactly ls[last letter] plus the weighted high digits (also when the decoder is written in place in the loop over the letters); the letter buffer is emptied exactly on the iterations that close a number; the listed labels continue at len(table) + 1 and advance by one per label.'
+                ' A character-scanning label loop hands a label on only at `<letter>.isspace()`; the list of steps given to Proof(..) is made for that proof (steps-fresh-per-proof); digit tables and the decoder may live on an object.',
         'note': 'Trusted: python ast; _floating_patterns is appended in database order.',
         'design_ref': 'DESIGN.md section 3, C15',
     },
@@ -240,7 +245,8 @@ CHECKS = {
                 'set iterations in the slicer are triaged by name. Round-trip identity and re-verification of the compressed proof '
                 'are not decided. A `$d` over n variables is recorded as all n(n-1)/2 pairs (the loop headers are evaluated over four abstract variables); the parse transformer, which remembers declared variables, is created per parse and never at import time. Every node class reports the variables of all its term- or statement-valued children (no skipped kinds) - the slicer declares what get_metavariables reports; an optional field with a falsy inhabitant (proof: str | None) is never tested by truthiness in the printer / slicer / parser.'
                 ' The constant and variable scans recurse into nested blocks; `$v` is emitted only when the variable set is non-empty (grammar `$v token+`); a slice written as one tuple display is read as the equivalent appends. Every labelled statement is entered into the container of cut antecedents on every path of the scanning loop, whether or not a slice is emitted for it.'
-                ' A set iteration in the slicer is order-free only if all it produces in order is a run of `$d` statements (they commute), whatever its spelling; a `$d` restriction is emitted exactly under `pair <= declared variables`.',
+                ' A set iteration in the slicer is order-free only if all it produces in order is a run of `$d` statements (they commute), whatever its spelling; a `$d` restriction is emitted exactly under `pair <= declared variables`.'
+                " Every antecedent component a lemma block is taken apart into reaches both the lemma's own slice and the axiom registered for later slices (sibling agreement).",
         'note': 'Trusted: python ast; the grammar is read from the `syntax` constant of metamath/parser.py.',
         'design_ref': 'DESIGN.md section 3, C17',
     },
@@ -254,7 +260,8 @@ CHECKS = {
                 'that format string. '
                 'The pretty printer and the serializer override the same 24 methods, each pretty override prints one terminated step '
                 'whose word is the opcode written. Injectivity of rendering in general is not decided. Instantiate.instantiate rebuilds the argument map with all stored entries first in stored order and Notation.__call__ stores arguments by position (the renderer is positional); no interpreter wrapper tests the wrapped interpreter for a class that separates the binary serializer from the pretty printer. The serializer writes an instruction on every path of every call (the pretty printer prints a step for every call).'
-                ' The memoisation choice does not depend on set iteration order (shared with C18, optimiser modules): binary and pretty files are written by separate processes. The pretty step of a metavariable prints every constraint list that the path conditions do not force empty.',
+                ' The memoisation choice does not depend on set iteration order (shared with C18, optimiser modules): binary and pretty files are written by separate processes. The pretty step of a metavariable prints every constraint list that the path conditions do not force empty.'
+                " The text printed for a stack entry is the text of that entry: hash(entry) / id(entry) as a cache key is a violation (shared with C15's identity-by-hash). Methods installed from a literal table with setattr are read as methods; an install that is not modelled stops the check (exit 2).",
         'note': 'Trusted: python ast, str.format placeholder syntax. Known findings: equiv, sorted-exists, kore-exists.',
         'design_ref': 'DESIGN.md section 3, C19',
     },
